@@ -1,0 +1,39 @@
+//go:build verif
+
+package cloudwatch
+
+import (
+	"context"
+
+	"github.com/aws/aws-sdk-go-v2/service/cloudwatch"
+	"github.com/sirupsen/logrus"
+
+	"github.com/atlassian/gostatsd"
+)
+
+// verifFakeC16 is a CloudwatchClient whose PutMetricData outcome is decided by a callback that sees
+// the request's context and the names of the datums in it.
+type verifFakeC16 struct {
+	put func(ctx context.Context, names []string) error
+}
+
+func (f verifFakeC16) PutMetricData(ctx context.Context, in *cloudwatch.PutMetricDataInput, _ ...func(*cloudwatch.Options)) (*cloudwatch.PutMetricDataOutput, error) {
+	names := make([]string, 0, len(in.MetricData))
+	for _, d := range in.MetricData {
+		if d.MetricName != nil {
+			names = append(names, *d.MetricName)
+		}
+	}
+	return &cloudwatch.PutMetricDataOutput{}, f.put(ctx, names)
+}
+
+// VerifNewClientC16 builds a Client around a fake CloudWatch API (NewClient needs an AWS
+// configuration, which a sandbox does not have).  put is called once per PutMetricData request.
+func VerifNewClientC16(namespace string, disabled gostatsd.TimerSubtypes, logger logrus.FieldLogger, put func(ctx context.Context, names []string) error) *Client {
+	return &Client{
+		logger:           logger,
+		cloudwatch:       verifFakeC16{put: put},
+		namespace:        namespace,
+		disabledSubtypes: disabled,
+	}
+}
